@@ -557,6 +557,39 @@ pub fn explore_first_use(rep: &mut Report, id: &str, bound: usize, thorough: boo
     } else {
         vec!["prove-verify"]
     };
+    // replay of one recorded schedule: run exactly that schedule twice in fresh processes and show the results
+    if let Some(f) = rep.replay_filter.clone() {
+        for h in &harnesses {
+            let marker = format!("{}/first-use/{}#schedule=[", id, h);
+            if let Some(rest) = f.strip_prefix(&marker) {
+                let sched: Vec<usize> = rest.trim_end_matches(']').split(',').filter_map(|x| x.trim().parse().ok()).collect();
+                let base = run_in_child(h, &[]);
+                let a = run_in_child(h, &sched);
+                let b = run_in_child(h, &sched);
+                println!("replaying schedule {:?} of first-use harness {}", sched, h);
+                match (base, a, b) {
+                    (Ok(base), Ok(a), Ok(b)) => {
+                        println!("  identical on both replays: {}", a.results == b.results && a.choices() == b.choices());
+                        for (t, r) in a.results.iter().enumerate() {
+                            let same = Some(r) == base.results.get(t);
+                            println!("  call {}: {} the sequential baseline ({})", t, if same { "equals" } else { "DIFFERS from" }, match r {
+                                Ok(bytes) => format!("{} bytes", bytes.len()),
+                                Err(p) => format!("panic: {}", p),
+                            });
+                            if !same {
+                                rep.violations.push((f.clone(), format!("call {} differs from the sequential baseline under the replayed schedule", t)));
+                            }
+                        }
+                        if a.deadlock {
+                            rep.violations.push((f.clone(), "deadlock under the replayed schedule".into()));
+                        }
+                    },
+                    (x, y, z) => rep.machinery.push(format!("replay failed: {:?} {:?} {:?}", x.err(), y.err(), z.err())),
+                }
+            }
+        }
+        return;
+    }
     for h in harnesses {
         // the 0-preemption execution is the sequential baseline
         let baseline = match run_in_child(h, &[]) {
